@@ -51,6 +51,8 @@ class Rewriter(ast.NodeTransformer):
         f = node.func
         if isinstance(f, ast.Attribute) and f.attr == 'join' and isinstance(f.value, ast.Constant) and isinstance(f.value.value, (bytes, str)):
             return ast.copy_location(ast.Call(func=ast.Name(id='__sx_join__', ctx=ast.Load()), args=[f.value] + node.args, keywords=[]), node)
+        if isinstance(f, ast.Attribute) and f.attr == 'format' and isinstance(f.value, ast.Constant) and isinstance(f.value.value, str):
+            return ast.copy_location(ast.Call(func=ast.Name(id='__sx_sformat__', ctx=ast.Load()), args=[f.value] + node.args, keywords=node.keywords), node)
         return node
 
     # --- structure
@@ -140,6 +142,7 @@ VALUE_SHIMS = {
     '__sx_dict__': core.SymDict,
     '__sx_fmt__': core.fmt_shim,
     '__sx_join__': core.join_shim,
+    '__sx_sformat__': core.sformat_shim,
     '__sx_cov__': _cov,
     '__sx_yp__': _yp,
     'bytes': core.bytes_shim,
